@@ -53,9 +53,19 @@ type c06In struct {
 	Chunk     int    `json:"chunk,omitempty"`     // "reader": bytes per Read
 	ErrWith   bool   `json:"err_with_data,omitempty"` // "reader": the error comes together with the last bytes
 	NoFail    bool   `json:"no_fail,omitempty"`   // "reader": control, the reader ends with io.EOF
+	Aligned   *c06Aligned `json:"aligned,omitempty"` // one large input of fixed-width numbered records (tree / stdin_hex are derived)
 	Mode      int      `json:"mode"` // 0 filter (all lines), 1 filter -m '^.*Q.*$', 2 histo -e {src} -e {0}
 	Q         int      `json:"q"`    // the byte Q of mode 1
 }
+// Fixed-width records "0000001.....\n": with a width that divides the 128 KiB read-ahead buffer a newline is exactly
+// the last byte of a full buffer and more input follows; every record carries its own number, so a lost or repeated
+// line is visible. form: plain | plain-z (plain file under -z) | gz-z (its gzip under -z) | stdin
+type c06Aligned struct {
+	Records int    `json:"records"`
+	Width   int    `json:"width"`
+	Form    string `json:"form"`
+}
+
 type c06Line struct {
 	Src  string `json:"src_hex"`
 	No   uint64 `json:"line"`
@@ -66,6 +76,9 @@ type c06Out struct {
 	Exit   int       `json:"exit"` // -1 = did not finish within the time limit
 	Nlog   int       `json:"log_lines"`
 	Stderr string    `json:"stderr,omitempty"`
+	// aligned cases: the lines are summarised instead of listed
+	NLines  int      `json:"lines_total,omitempty"`
+	Summary string   `json:"summary,omitempty"`
 }
 
 // ---------------------------------------------------------------- building and running rare
@@ -471,10 +484,98 @@ func computeOracles(root string, in c06In) *oracle {
 	return o
 }
 
+// ---------------------------------------------------------------- large aligned inputs
+func alignedContent(a *c06Aligned) []byte {
+	var b bytes.Buffer
+	for i := 1; i <= a.Records; i++ {
+		fmt.Fprintf(&b, "%07d", i)
+		b.WriteString(strings.Repeat(".", a.Width-8))
+		b.WriteByte('\n')
+	}
+	return b.Bytes()
+}
+
+func c06CaseAligned(in c06In) Case {
+	caseNo++
+	a := in.Aligned
+	content := alignedContent(a)
+	disk, name := content, "aligned.log"
+	full := in
+	full.Aligned = nil
+	full.Gunzip = a.Form == "plain-z" || a.Form == "gz-z"
+	if a.Form == "gz-z" {
+		disk, name = gz(content), "aligned.log.gz"
+	}
+	fromStdin := a.Form == "stdin"
+	if fromStdin {
+		full.Args, full.Stdin = nil, hex.EncodeToString(content)
+	} else {
+		full.Args = []string{name}
+		full.Tree = []c06Ent{{Path: name, Data: hex.EncodeToString(disk)}}
+	}
+	root := filepath.Join(workdir(), fmt.Sprintf("t%d", caseNo))
+	if err := makeTree(root, full.Tree); err != nil {
+		fmt.Fprintln(os.Stderr, "c06: cannot build tree:", err)
+		os.Exit(2)
+	}
+	defer os.RemoveAll(root)
+	out := runRare(root, full)
+
+	gzo := "None"
+	if full.Gunzip {
+		if zr, err := gzip.NewReader(bytes.NewReader(disk)); err == nil {
+			data, rerr := io.ReadAll(zr)
+			gzo = fmt.Sprintf("(Some (%s,%s))", RL(data), B(rerr != nil))
+		}
+	}
+	lines := make([]string, len(out.Lines))
+	once, wrong := 0, []uint64{}
+	seen := map[string]int{}
+	for i, l := range out.Lines {
+		t, _ := hex.DecodeString(l.Text)
+		lines[i] = fmt.Sprintf("(\"%s\",%d,%s)", l.Src, l.No, RL(t))
+		seen[string(t)]++
+		if len(t) < 7 || string(t[:7]) != fmt.Sprintf("%07d", l.No) {
+			if len(wrong) < 8 {
+				wrong = append(wrong, l.No)
+			}
+		}
+	}
+	for _, k := range seen {
+		if k == 1 {
+			once++
+		}
+	}
+	coq := fmt.Sprintf("cr %s %s %s %s %s %d %d %d %s %s %d", HS(name), RL(disk), B(full.Gunzip), gzo, B(fromStdin),
+		in.Batch, in.Mode, in.Q, CoqList(lines), Z(int64(out.Exit)), out.Nlog)
+	// the description keeps a summary, not 3000 lines (documentation only; the comparison is done in Coq on the full lines)
+	out.NLines = len(out.Lines)
+	out.Summary = fmt.Sprintf("%d lines printed, %d distinct texts printed exactly once, first line numbers whose text carries another record number: %v", len(out.Lines), once, wrong)
+	out.Lines = nil
+	kb, _ := json.Marshal(in)
+	tags := []string{fmt.Sprintf("exit=%d", out.Exit), "aligned-records:" + a.Form, fmt.Sprintf("aligned:%dx%d,batch=%d", a.Records, a.Width, in.Batch)}
+	return Case{Coq: coq, Desc: map[string]any{"input": in, "impl": out}, Key: string(kb),
+		Nontrivial: a.Width > 8 && 131072%a.Width == 0 && a.Records*a.Width > 131072, Tags: tags}
+}
+
+func alignedCases() []c06In {
+	var out []c06In
+	// batch 100000: every line is still held by the reader's unsent batch when the buffer boundary is crossed
+	for _, f := range []string{"plain", "plain-z", "gz-z", "stdin"} {
+		out = append(out, c06In{Aligned: &c06Aligned{Records: 1300, Width: 128, Form: f}, Readers: 1, Workers: 1, Batch: 100000, Q: 'Q'})
+	}
+	// the default batch size with several workers: 24 lines are held unsent at the first boundary and the next read refills the whole buffer
+	out = append(out, c06In{Aligned: &c06Aligned{Records: 2200, Width: 128, Form: "plain"}, Readers: 2, Workers: 3, Batch: 1000, Q: 'Q'})
+	return out
+}
+
 // ---------------------------------------------------------------- one case
 var caseNo int
 
 func c06Case(in c06In) Case {
+	if in.Aligned != nil {
+		return c06CaseAligned(in)
+	}
 	caseNo++
 	root := filepath.Join(workdir(), fmt.Sprintf("t%d", caseNo))
 	if err := makeTree(root, in.Tree); err != nil {
@@ -855,6 +956,9 @@ func gen(r *Rng, n int, tier string) []Case {
 	for _, in := range fixedCases() {
 		cases = append(cases, c06Case(in))
 	}
+	for _, in := range alignedCases() {
+		cases = append(cases, c06Case(in))
+	}
 	for len(cases) < n {
 		cases = append(cases, c06Case(genIn(r.Fork())))
 	}
@@ -866,7 +970,7 @@ func main() {
 		Name:   "C06",
 		Header: "From Coq Require Import List NArith ZArith String.\nFrom RareV Require Import Corr.C06Case.\nImport ListNotations.\nLocal Open Scope string_scope.\nLocal Open Scope N_scope.\n",
 		Rule: "the rare binary built from the tree under test, run (filter -e '{src}:{line}:{0}', filter -m '^.*Q.*$', histo -e {src} -e {0}) in real temporary trees: " +
-			"a fixed scope (15 argument lists x -z x -R on one tree with plain / gzip / truncated gzip / empty files and nested directories, stdin forms, standard input failing while read: directory handle at CLI level, and at library level batchers.OpenReaderToChan + helpers.DetermineErrorState over a reader that fails after 0-3 lines) then seeded random trees (depth <= 3, names incl. glob metacharacters, " +
+			"a fixed scope (15 argument lists x -z x -R on one tree with plain / gzip / truncated gzip / empty files and nested directories, stdin forms, 5 large single-input cases of fixed-width numbered records (1300 x 128 bytes as plain file, plain under -z, gzip under -z, standard input, with --batch 100000 so that every line is still held when the buffer is refilled; 2200 x 128 bytes with the default batch and 3 workers): a newline is exactly the last byte of a full 128 KiB read-ahead buffer and every record must be printed exactly once under its own line number; standard input failing while read: directory handle at CLI level, and at library level batchers.OpenReaderToChan + helpers.DetermineErrorState over a reader that fails after 0-3 lines) then seeded random trees (depth <= 3, names incl. glob metacharacters, " +
 			"files: plain, empty, gzip, truncated gzip (header/body/trailer), damaged trailer, damaged deflate body, multi-member, trailing garbage, plain > 4096 bytes) x 1-4 arguments (file, directory with or without trailing slash, glob, missing path, " +
 			"duplicate, malformed pattern, '-' first or later, none) x -z x -R x --readers 1-4 x --workers 1-3 x --batch {1,2,3,1000}. Oracles: os.Stat, filepath.Glob, os.ReadDir order, compress/gzip called by the harness on the same tree. " +
 			"distinct = distinct (tree, arguments, flags, stdin); non-trivial = at least one of: a directory walked by -R, a glob with >= 2 matches, a pattern without match taken literally, a missing path next to other arguments, " +
